@@ -689,7 +689,13 @@ func (n *Normer) callCases(call *ssa.Call, idx int, depth int) []valCase {
 			continue
 		}
 		rc := n.ReachCond(cal, nil, ret.Block())
-		for _, sub := range n.valueCases(cal, nil, ret.Results[idx], depth+1) {
+		rv := ret.Results[idx]
+		if cv, ok := rv.(*ssa.Convert); ok && n.StripNarrow != "" && typeShort(cv.Type()) == n.StripNarrow {
+			// the caller stores the result in a location of that very type: the final narrowing is
+			// the same wherever it is written
+			rv = cv.X
+		}
+		for _, sub := range n.valueCases(cal, nil, rv, depth+1) {
 			out = append(out, valCase{sub.val, cAnd(rc, sub.cond)})
 		}
 	}
